@@ -769,6 +769,42 @@ class SymBytes:
         # an operation of bytes/bytearray that the proxy does not model: never a verdict
         raise Inconclusive('bytes.%s() is not modelled for symbolic bytes' % name)
 
+    def split(self, sep=None, maxsplit=-1):
+        if maxsplit != -1:
+            raise Inconclusive('bytes.split(maxsplit)')
+        eng = E()
+
+        def is_sep(c, vals):
+            if z3.is_bv_value(c):
+                return c.as_long() in vals
+            return eng.branch(z3.Or([c == v for v in vals]))
+        if sep is None:
+            ws = (9, 10, 11, 12, 13, 32)
+            out, cur = [], []
+            for c in self.c:
+                if is_sep(c, ws):
+                    if cur:
+                        out.append(SymBytes(cur))
+                        cur = []
+                else:
+                    cur.append(c)
+            if cur:
+                out.append(SymBytes(cur))
+            return out
+        sepc = _cells_of(sep)
+        if _len(sepc) != 1 or not z3.is_bv_value(sepc[0]):
+            raise Inconclusive('bytes.split with a multi-octet/symbolic separator')
+        sv = (sepc[0].as_long(),)
+        out, cur = [], []
+        for c in self.c:
+            if is_sep(c, sv):
+                out.append(SymBytes(cur))
+                cur = []
+            else:
+                cur.append(c)
+        out.append(SymBytes(cur))
+        return out
+
     def startswith(self, p):
         p = _cells_of(p)
         if _len(p) > _len(self.c):
@@ -2118,6 +2154,24 @@ def text_method(recv, method, args):
         if method in ('strip', 'rstrip'):
             b = _len(raw) - _strip_side(items[a:], chars, False)
         return recv[a:b] if b > a else ''
+    if method == 'replace' and _len(args) == 2 and type(args[0]) is _str and type(args[1]) is _str \
+            and _len(args[0]) == 1 and not has_placeholder(args[0]) and not has_placeholder(args[1]):
+        old, new = args
+        out = []
+        chars = Engine.cur.registry.get('chars', [])
+        for ch in recv:
+            o = _ord(ch)
+            if CHAR_BASE <= o < CHAR_BASE + _len(chars):
+                out.append(new if E().branch(chars[o - CHAR_BASE] == _ord(old)) else ch)
+            elif ch == old:
+                out.append(new)
+            elif ch in (TOKEN_OPEN, TOKEN_CLOSE) or BIT_BASE <= o or ch in _HEX_LOWER_IDX or ch in _HEX_UPPER_IDX:
+                if old in '-0123456789abcdefABCDEF':
+                    raise Inconclusive('str.replace(%r, ...) over digit placeholders' % old)
+                out.append(ch)
+            else:
+                out.append(ch)
+        return ''.join(out)
     raise Inconclusive('str.%s() inspects formatted text that carries symbolic content' % method)
 
 
